@@ -117,7 +117,7 @@ def intFromWordsLit (ws : List Word) : R AttrVal :=
 
 /-- definition.assign_attribute -/
 def defAttrValue (name : String) (ws : List Word) : R AttrVal :=
-  if name == "optional" || name == "multiple" then boolFromWords ws
+  if name == "optional" || name == "multiple" || name == "deprecated" then boolFromWords ws
   else if name == "type" then
     if isPlainNone ws then .ok .none
     else if isPlainAuto ws then .ok .auto
